@@ -496,6 +496,13 @@ class Builder:
                        and not self.idx.is_nullable(('alias', n_, a_['name']))] if self.cfg.alias_nesting_bias else []
             if self.cfg.annot_bias and g.p(50):
                 t = g.choice([prim('String'), prim('Int64'), prim('UInt32'), prim('Float64')])
+            elif self.cfg.alias_nesting_bias and g.p(20) and self.visible(ns, ('struct', 'union')):
+                # an alias of a container / nullable of a user type: examples of fields typed by it name labels
+                n_, d_ = g.choice(self.visible(ns, ('struct', 'union')))
+                r_ = ('ref', n_, d_['name'])
+                t = g.choice([('list', r_, None, None), ('map', prim('String'), r_), ('list', ('nullable', r_), None, None),
+                              ('map', prim('String'), ('list', r_, None, None))] +
+                             ([('nullable', r_)] if self.cfg.nullable_aliases else []))
             elif earlier and g.p(35):
                 # an alias reached only through another alias, below a nullable and / or a container
                 a_ = g.choice(earlier)
@@ -1265,6 +1272,7 @@ def frontend_cases(draw, base=None):
     r = draw(st.integers(0, 99))
     kw.setdefault('nullable_aliases', r >= 85)
     kw.setdefault('wild_strings', 70 <= r < 78)
+    kw.setdefault('alias_nesting_bias', r % 3 == 0)     # aliases of containers / nullables of other aliases and user types
     api = draw(api_models(Cfg(**kw)))
     from . import render
     lay = draw(render.layouts(api)) if draw(st.integers(0, 3)) else None
